@@ -529,14 +529,17 @@ pub fn main(args: &[String]) {
             apps.push(json!({"op":"neg","a":c(a)}));
             apps.push(json!({"op":"pos","a":c(a)}));
         }
+        // (these few run in every tier, whatever the stride)
+        let mut always: Vec<Value> = vec![];
         for l in ["9223372036854775807", "-9223372036854775808", "9223372036854775808", "-9223372036854775809", "18446744073709551615", "-18446744073709551616", "2147483648", "-2147483648", "0", "7"] {
             let t = term_json(&lit_dt(l, &format!("{XSD}integer")));
-            apps.push(json!({"op":"neg","a":c(&t)}));
-            apps.push(json!({"op":"neg","a":{"op":"neg","a":c(&t)}}));
-            apps.push(json!({"op":"pos","a":c(&t)}));
+            always.push(json!({"op":"neg","a":c(&t)}));
+            always.push(json!({"op":"neg","a":{"op":"neg","a":c(&t)}}));
+            always.push(json!({"op":"pos","a":c(&t)}));
         }
-        for (i, e) in apps.into_iter().enumerate() {
-            if (i + seed as usize) % stride != 0 {
+        let n_always = always.len();
+        for (i, e) in always.into_iter().chain(apps.into_iter()).enumerate() {
+            if i >= n_always && (i + seed as usize) % stride != 0 {
                 continue;
             }
             let p = json!({"op":"extend","v":"r","e":e,"inner":{"op":"bgp","tps":[]}});
